@@ -5,7 +5,17 @@
 // https://opensource.org/licenses/MIT.
 
 fn main() {
-    let args = std::env::args().collect::<Vec<String>>();
+    // std::env::args() panics on an argument that is not valid Unicode
+    let args = match std::env::args_os()
+        .map(std::ffi::OsString::into_string)
+        .collect::<Result<Vec<String>, _>>()
+    {
+        Ok(args) => args,
+        Err(arg) => {
+            eprintln!("Error: argument {arg:?} is not valid UTF-8");
+            std::process::exit(1);
+        }
+    };
     std::process::exit(findutils::xargs::xargs_main(
         &args
             .iter()
